@@ -59,6 +59,11 @@ def holders(shape, kinds):
     return out
 
 
+def bind_ttb():
+    import bind
+    return bind.ttb
+
+
 CLS = {"dense": "tensor", "sparse": "sptensor", "ktensor": "ktensor", "ttensor": "ttensor", "sum": "sumtensor"}
 
 
@@ -226,6 +231,24 @@ def calls(fam: str, a: dict) -> List[Tuple[str, List[Any], Callable[[], Any]]]:
         ix = [int(i) for i in a["idx"]]
         arg = {"list": ix, "tuple": tuple(ix), "array": I(ix), "int": (np.int64(ix[0]) if a["R"] % 2 == 0 else ix[0]) if ix else None}[a["form"]]
         out.append(("ktensor.extract", [K], lambda: K.extract(arg)))
+    elif fam == "sptenmat_setitem":
+        M = mk_sparse([a["nrows"], 2, a["ncols"] // 2]).to_sptenmat(np.array([0]))
+        out.append(("sptenmat.__setitem__", [M], lambda: M.__setitem__((int(a["r"]), int(a["c"])), 7.0)))
+    elif fam == "mttkrps_factors":
+        X = mk_dense(a["shape"])
+        U = [np.arange(1.0, r * c + 1).reshape(r, c) for r, c in zip(a["rows"], a["cols"])]
+        out.append(("tensor.mttkrps", [X] + U, lambda: X.mttkrps(U)))
+    elif fam == "setitem_block":
+        key = tuple(slice(0, int(h)) for h in a["hi"])
+        val = np.arange(1.0, int(np.prod(a["vshape"])) + 1).reshape(tuple(a["vshape"]))
+        for k, o in holders(a["shape"], ["dense", "sparse"]):
+            v = val if k == "dense" else bind_ttb().tensor(val).to_sptensor()      # (a sparse receiver takes sparse blocks)
+            out.append((f"{CLS[k]}.__setitem__(block)", [o, v], (lambda o=o, v=v: o.__setitem__(key, v))))
+    elif fam == "fixsigns_other":
+        K = mk_kt(a["rows"], [a["R"]] * len(a["rows"]))
+        K.factor_matrices[0][0, :] *= -3.0          # (so that there is a sign to fix and a norm to move)
+        O = mk_kt(a["orows"], [a["oR"]] * len(a["orows"]))
+        out.append(("ktensor.fixsigns(other)", [K, O], lambda: K.fixsigns(O)))
     elif fam == "tt_reconstruct":
         T = ttb.ttensor(mk_dense([2, 2, 2]), [np.arange(1.0, 2 * r + 1).reshape(r, 2) for r in (3, 4, 2)])
         ms = [int(m) for m in a["modes"]]
